@@ -45,8 +45,11 @@ def obligations(tier):
         o.append(E1('typed-insert/%s' % nm, H, SRC, ['-DNB=1', '-DMODE=5', '-DTYPED=%d' % t, '-DLEN=%d' % ln], unwind=66, backends=MUL, timeout=300,
                     bounds='arbitrary 1-block state, every value of the type (float/double: every non-NaN value; bytes: length %d)' % ln, cvc5_int=False,
                     functions=['carquet_bloom_filter_insert_%s' % nm.rstrip('39'), 'carquet_xxhash64'] + FN_BLOOM, stub_realloc=False))
-    lens = list(range(0, 41)) if not quick else [0, 1, 2, 3, 4, 5, 7, 8, 9, 11, 12, 13, 15, 16, 17, 23, 24, 31, 32, 33, 36, 37, 39, 40]
+    # every length class of the algorithm: <32 (no stripe loop), 32..63 (one stripe), >= 64 (stripe loop iterates), with every tail
+    # shape (8-byte steps, 4-byte step, single bytes) behind it
+    lens = (list(range(0, 131)) + [159, 160, 161, 192, 255, 256, 257]) if not quick else \
+        [0, 1, 2, 3, 4, 5, 7, 8, 9, 11, 12, 13, 15, 16, 17, 23, 24, 31, 32, 33, 36, 37, 39, 40, 47, 48, 63, 64, 65, 71, 76, 95, 96, 97, 127, 128, 129]
     for ln in lens:
-        o.append(E1('xxh64/len%d' % ln, H, ['src/util/xxhash.c'], ['-DMODE=6', '-DLEN=%d' % ln, '-DNB=1'], unwind=42, backends=MUL, timeout=300,
+        o.append(E1('xxh64/len%d' % ln, H, ['src/util/xxhash.c'], ['-DMODE=6', '-DLEN=%d' % ln, '-DNB=1'], unwind=ln + 4, backends=MUL, timeout=300,
                     bounds='length %d, every byte value, every 64-bit seed' % ln, functions=['carquet_xxhash64'], stub_realloc=False))
     return o
